@@ -311,12 +311,13 @@ def cases(draw, corpus_table, big=False):
     min_date = dt.date(1904, 1, 1) if mods["date1904"] else dt.date(1900, 1, 1)
     datas = []
     nstates = nrep + (0 if isinstance(start, list) else 1)
+    # 700-class charts: every state of the case is big (growing a small chart to 700 series by replace_data
+    # costs seconds in the library's quadratic clone loop; the grid job does that transition deterministically)
+    bigcase = big and kind == "cat" and not isinstance(start, list) and draw(st.integers(0, 2)) == 0
     for i in range(nstates):
         is_add = (i == 0 and not isinstance(start, list))
         # the state a replace_data starts from must hold a series (F19 is C07's); pie/doughnut need >= 1
         need = 1 if (not is_add or nrep or ctype in PIE_TYPES) else 0
-        bulk = None
-        if big and kind == "cat" and draw(st.integers(0, 3)) == 0:
-            bulk = draw(st.sampled_from([699, 700, 701, 702, 703]))
+        bulk = draw(st.sampled_from([699, 700, 701, 702, 703])) if bigcase else None
         datas.append(draw(_data(kind, bulk=bulk, min_date=min_date, min_series=need)))
     return {"kind": kind, "type": ctype, "start": start, "mods": mods, "datas": datas}
